@@ -11,7 +11,8 @@ PROPERTY_ID = "C05"
 LEVEL = "exploration"
 RULE = ("Random typed, well-scoped, terminating core-language programs (G-core: let/assignment/+=, if/else, while, for, "
         "break/continue/return, named and recursive functions, closures, match over Option/Result/user enum, lists, "
-        "tuples) with randomised knobs (shadowing, annotations, early-exit bias). `garden run` stdout must equal the "
+        "tuples) with randomised knobs (shadowing, annotations, early-exit bias), plus a loop-heavy exit-stress "
+        "population (loop bodies that shadow outer names and leave through break/continue inside if/match). `garden run` stdout must equal the "
         "reference interpreter's output byte for byte and the outcome class (success / which runtime error) must "
         "agree. Non-trivial = the program has a loop with an early exit, a closure call or a match binding a payload, "
         "and prints >= 5 lines; distinct = distinct source text.")
@@ -50,8 +51,17 @@ def expected(prog):
     return out, outcome
 
 
-def gen(r):
-    prog, src = G.generate(r, random_knobs(r))
+def stress_knobs(r):
+    return G.Knobs(shadowing=True, annotations=r.choice(["full", "none"]), early_exit_bias=True, exit_stress=True,
+                   errors=False, max_stmts=r.choice([6, 10]), max_funs=r.choice([0, 0, 1]), closures=r.bool(0.3))
+
+
+def gen_stress(r):
+    return gen(r, stress_knobs(r))
+
+
+def gen(r, knobs=None):
+    prog, src = G.generate(r, knobs or random_knobs(r))
     exp = expected(prog)
     feats = sorted(G.features(prog))
     if exp is None:
@@ -122,4 +132,7 @@ def show(case):
 
 SUBS = [
     Sub("differential", check, gen=gen, cases={"quick": 1500, "thorough": 50000}, show=show),
+    # loop-heavy population: loop bodies declare shadowing names and leave through break/continue nested in
+    # if / match wrappers (added after a seeded change that only this shape exposes was missed)
+    Sub("exit-stress", check, gen=gen_stress, cases={"quick": 700, "thorough": 20000}, show=show),
 ]
